@@ -137,6 +137,10 @@ func replayLegacy(line []byte, a *Acc) {
 	mv := mxj.Map(m)
 	before := tagged.CanonGo(m)
 	one := func(sig, detail string) { a.Mis(sig, fmt.Sprintf("Map %s: %s", short(before), detail), l) }
+	var hl held
+	defer hl.check(func(name, was, now string) {
+		one("legacy:result-changed-later", fmt.Sprintf("the bytes returned by %s were %q and read %q after later wrapper calls", name, was, now))
+	})
 	n := 0
 	jdoc, _ := mv.Json()
 	mxj.XMLEscapeChars(true)
@@ -407,6 +411,13 @@ func replayLegacy(line []byte, a *Acc) {
 			w.Reset()
 			gj, e = x2j.XmlToJsonWriter(xdoc, &w, safe)
 			eq(fmt.Sprintf("x2j.XmlToJsonWriter(safe=%v)", safe), string(gj)+"|"+w.String()+cls(e), string(cj)+"|"+string(cj)+"ok")
+			hl.add(fmt.Sprintf("x2j.XmlToJsonWriter(safe=%v)", safe), gj)
+			{
+				// ... and another, different, message through the same wrappers while the result is held
+				var w0 bytes.Buffer
+				x2j.XmlToJsonWriter([]byte(`<other k="v"><x>1</x></other>`), &w0, safe)
+				x2j.XmlReaderToJsonWriter(strings.NewReader(`<o2>text</o2>`), &w0, safe)
+			}
 			called("XmlReaderToJson")
 			xr, gj, e := x2j.XmlReaderToJson(bytes.NewReader(xdoc), safe)
 			eq(fmt.Sprintf("x2j.XmlReaderToJson(safe=%v)", safe), string(xr)+"|"+string(gj)+cls(e), string(xdoc)+"|"+string(cj)+"ok")
@@ -421,6 +432,8 @@ func replayLegacy(line []byte, a *Acc) {
 			w.Reset()
 			xr, gj, e = x2j.XmlReaderToJsonWriter(bytes.NewReader(xdoc), &w, safe)
 			eq(fmt.Sprintf("x2j.XmlReaderToJsonWriter(safe=%v)", safe), string(xr)+"|"+string(gj)+"|"+w.String()+cls(e), string(xdoc)+"|"+string(cj)+"|"+string(cj)+"ok")
+			hl.add(fmt.Sprintf("x2j.XmlReaderToJsonWriter(safe=%v) json", safe), gj)
+			hl.add(fmt.Sprintf("x2j.XmlReaderToJsonWriter(safe=%v) raw xml", safe), xr)
 		}
 		called("XmlUpdateValsForPath")
 		{
